@@ -360,7 +360,12 @@ pub fn build_instance(scn: &Value) -> Result<Built, String> {
         let path = dir.join("headings.csv");
         let mut txt = String::from("arrival_heading,departure_heading\n");
         for h in scn["hd"].as_array().unwrap() {
-            txt.push_str(&format!("{},{}\n", ji(&h[0]), ji(&h[1])));
+            // the second heading is optional: a straight edge may leave it out
+            if ji(&h[0]) == ji(&h[1]) && scn["omit_zero"].as_bool().unwrap_or(false) {
+                txt.push_str(&format!("{},\n", ji(&h[0])));
+            } else {
+                txt.push_str(&format!("{},{}\n", ji(&h[0]), ji(&h[1])));
+            }
         }
         std::fs::write(&path, txt).unwrap();
         let dtu_name = uname(&units["delay"], "seconds");
@@ -370,11 +375,29 @@ pub fn build_instance(scn: &Value) -> Result<Built, String> {
         for (i, d) in scn["delay"].as_array().unwrap().iter().enumerate() {
             table.insert(names[i].to_string(), json!(TimeUnit::Seconds.convert(&Time::new(jf(d)), &dtu).as_f64()));
         }
-        let svc = TurnDelayAccessModelBuilder {}
-            .build(&json!({"edge_heading_input_file": path.to_str().unwrap(),
-                           "turn_delay_model": {"type": "tabular_discrete", "table": table, "time_unit": dtu_name}}))
-            .map_err(|e| format!("turn delay builder: {}", e))?;
-        svc.build(&json!({})).map_err(|e| format!("turn delay service: {}", e))?
+        let one = json!({"type": "turn_delay", "edge_heading_input_file": path.to_str().unwrap(),
+                         "turn_delay_model": {"type": "tabular_discrete", "table": table, "time_unit": dtu_name}});
+        if scn["split_models"].as_bool().unwrap_or(false) {
+            // the same delays spread over two turn-delay models inside a combined access model (each adds its share)
+            let (mut ta, mut tb) = (serde_json::Map::new(), serde_json::Map::new());
+            for (k, v) in one["turn_delay_model"]["table"].as_object().unwrap() {
+                let d = v.as_f64().unwrap();
+                let a = (d / 2.0).floor();
+                ta.insert(k.clone(), json!(a));
+                tb.insert(k.clone(), json!(d - a));
+            }
+            let (mut ma, mut mb) = (one.clone(), one.clone());
+            ma["turn_delay_model"]["table"] = Value::Object(ta);
+            mb["turn_delay_model"]["table"] = Value::Object(tb);
+            let reg: HashMap<String, Rc<dyn AccessModelBuilder>> = HashMap::from([(String::from("turn_delay"), Rc::new(TurnDelayAccessModelBuilder {}) as Rc<dyn AccessModelBuilder>)]);
+            let svc = routee_compass::app::compass::config::access_model::combined_access_model_builder::CombinedAccessModelBuilder { builders: reg }
+                .build(&json!({"type": "combined", "access_models": [ma, mb]}))
+                .map_err(|e| format!("combined access builder: {}", e))?;
+            svc.build(&json!({})).map_err(|e| format!("combined access service: {}", e))?
+        } else {
+            let svc = TurnDelayAccessModelBuilder {}.build(&one).map_err(|e| format!("turn delay builder: {}", e))?;
+            svc.build(&json!({})).map_err(|e| format!("turn delay service: {}", e))?
+        }
     } else {
         Arc::new(NoAccessModel {})
     };
